@@ -1,4 +1,5 @@
 import SmtpV.Proofs.CallLines
+import SmtpV.Proofs.AuthLines
 /-!
 # C15, whole calls — one command line per protocol step
 
@@ -33,6 +34,20 @@ theorem C15_one_line_per_call (c : C) (k : Call) (hs : k.simple = true) (hi : Id
   | [l], _, m, e =>
     obtain ⟨x, rfl, hx⟩ := m l (by simp)
     right; exact ⟨x, hx, by simpa using e⟩
+
+/-- **C15_auth_whole_lines.**  The `Auth` call, for every mechanism name, initial response, script of the caller's `sasl.Client`
+    (responses of any octets, errors, early stops) and every peer: what is written is a sequence of whole lines `x CRLF` with no CR
+    or LF inside `x` — the implicit EHLO/HELO, the AUTH line, then one line per round of the exchange (a base64 response or the
+    cancel token); a mechanism name containing CR or LF writes nothing of its own (repaired in b0235b7); and the client is left idle
+    with its host name clean, so that the same holds for whatever call follows. -/
+theorem C15_auth_whole_lines (c : C) (mech : Bytes) (ir : Option Bytes) (steps : List (Option (Option Bytes)))
+    (hi : Idle c) (hn : validLine c.localName = true) :
+    ∃ ls : List Bytes, (c.call (.auth mech ir steps)).2.written = c.carry ++ ls.flatten ∧
+      ls.length ≤ helloBudget c + steps.length + 3 ∧ (∀ l ∈ ls, IsLine l) ∧
+      Idle (c.call (.auth mech ir steps)).1 ∧ validLine (c.call (.auth mech ir steps)).1.localName = true := by
+  obtain ⟨h1, h2⟩ := auth_call_ol c mech ir steps hi hn
+  obtain ⟨ls, e, n, m⟩ := h1.lines
+  exact ⟨ls, by rw [h2, e], n, m, h1.idle, h1.name⟩
 
 /-- the premises hold for a new client and are kept by every history of such calls -/
 theorem C15_history_keeps_premises (cs : List Call) (hcs : ∀ k ∈ cs, k.simple = true) :
